@@ -512,6 +512,14 @@ impl PackInfo {
     }
 }
 
+/// Remember the first error of the reader and writer tasks of [`restore_contents`]
+fn set_error(first_error: &Mutex<Option<Box<RusticError>>>, err: Box<RusticError>) {
+    let mut first_error = first_error.lock().unwrap();
+    if first_error.is_none() {
+        *first_error = Some(err);
+    }
+}
+
 /// [`restore_contents`] restores all files contents as described by `file_infos`
 /// using the [`DecryptReadBackend`] `be` and writing them into the [`LocalDestination`] `dest`.
 ///
@@ -559,6 +567,8 @@ fn restore_contents<S: Open>(
     }
 
     let sizes = &Mutex::new(file_lengths);
+    // the first error of a reader or writer task; it is returned once all tasks are finished
+    let first_error = &Mutex::new(None::<Box<RusticError>>);
 
     let p = repo.progress_bytes("restoring file contents...");
     p.set_length(restore_size);
@@ -616,18 +626,39 @@ fn restore_contents<S: Open>(
             let p = &p;
 
             if !blobs.is_empty() {
-                // TODO: error handling!
                 s.spawn(move |s1| {
+                    if first_error.lock().unwrap().is_some() {
+                        return;
+                    }
                     let read_data = match &from_file {
                         Some((file_idx, offset_file, length_file)) => {
                             // read from existing file
-                            dest.read_at(&filenames[*file_idx], *offset_file, (*length_file).into())
-                                .unwrap()
+                            let path = &filenames[*file_idx];
+                            match dest.read_at(path, *offset_file, (*length_file).into()) {
+                                Ok(data) => data,
+                                Err(err) => {
+                                    set_error(
+                                        first_error,
+                                        RusticError::with_source(
+                                            ErrorKind::InputOutput,
+                                            "Failed to read from the existing file `{path}`.",
+                                            err,
+                                        )
+                                        .attach_context("path", path.display().to_string()),
+                                    );
+                                    return;
+                                }
+                            }
                         }
                         None => {
                             // read needed part of the pack
-                            be.read_partial(FileType::Pack, &pack_id, false, offset, length)
-                                .unwrap()
+                            match be.read_partial(FileType::Pack, &pack_id, false, offset, length) {
+                                Ok(data) => data,
+                                Err(err) => {
+                                    set_error(first_error, err);
+                                    return;
+                                }
+                            }
                         }
                     };
 
@@ -641,11 +672,27 @@ fn restore_contents<S: Open>(
                                 .expect("convert from u32 to usize should not fail!");
                             let end = usize::try_from(bl.offset + bl.length - offset)
                                 .expect("convert from u32 to usize should not fail!");
-                            be.read_encrypted_from_partial(
-                                &read_data[start..end],
-                                bl.uncompressed_length,
-                            )
-                            .unwrap()
+                            // a pack which is shorter than expected yields less data than requested
+                            let Some(encrypted) = read_data.get(start..end) else {
+                                set_error(
+                                    first_error,
+                                    RusticError::new(
+                                        ErrorKind::InputOutput,
+                                        "Pack `{pack_id}` is too short: could not read the blob at offset `{offset}`.",
+                                    )
+                                    .attach_context("pack_id", pack_id.to_string())
+                                    .attach_context("offset", bl.offset.to_string()),
+                                );
+                                return;
+                            };
+                            match be.read_encrypted_from_partial(encrypted, bl.uncompressed_length)
+                            {
+                                Ok(data) => data,
+                                Err(err) => {
+                                    set_error(first_error, err);
+                                    return;
+                                }
+                            }
                         };
                         let is_sparse = match sparse {
                             SparseRestore::ByContent => data.iter().all(|&b| b == 0),
@@ -660,14 +707,36 @@ fn restore_contents<S: Open>(
                                 let mut sizes_guard = sizes.lock().unwrap();
                                 let filesize = sizes_guard[file_idx];
                                 if filesize > 0 {
-                                    dest.set_length(path, filesize).unwrap();
+                                    if let Err(err) = dest.set_length(path, filesize) {
+                                        set_error(
+                                            first_error,
+                                            RusticError::with_source(
+                                                ErrorKind::InputOutput,
+                                                "Failed to set the length of the file `{path}`.",
+                                                err,
+                                            )
+                                            .attach_context("path", path.display().to_string()),
+                                        );
+                                        return;
+                                    }
                                     sizes_guard[file_idx] = 0;
                                 }
                                 drop(sizes_guard);
                                 // zero blocks can only be skipped in freshly created files;
                                 // an existing file may contain other data at this position
-                                if !is_sparse || file_exists[file_idx] {
-                                    dest.write_at(path, start, &data).unwrap();
+                                if (!is_sparse || file_exists[file_idx])
+                                    && let Err(err) = dest.write_at(path, start, &data)
+                                {
+                                        set_error(
+                                            first_error,
+                                            RusticError::with_source(
+                                                ErrorKind::InputOutput,
+                                                "Failed to write to the file `{path}`.",
+                                                err,
+                                            )
+                                            .attach_context("path", path.display().to_string()),
+                                        );
+                                    return;
                                 }
                                 p.inc(size);
                             });
@@ -679,6 +748,10 @@ fn restore_contents<S: Open>(
     });
 
     p.finish();
+
+    if let Some(err) = first_error.lock().unwrap().take() {
+        return Err(err);
+    }
 
     Ok(())
 }
